@@ -728,8 +728,10 @@ class CategoricalROISubsetState(SubsetState):
     @contract(data='isinstance(Data)', view='array_view')
     def to_mask(self, data, view=None):
         x = data[self.att, view]
-        result = self.roi.contains(x, None)
-        assert x.shape == result.shape
+        # for a single element (a view made only of integers) the comparison
+        # of two strings gives a Python bool
+        result = np.asarray(self.roi.contains(x, None))
+        assert np.shape(x) == result.shape
         return result
 
     def copy(self):
